@@ -3,6 +3,7 @@
 
 #[path = "../../vcore/src/c14dec.rs"]
 mod c14dec;
+mod c15gen;
 
 use vkit::report::{load_replay, parse_args, Report};
 
@@ -16,7 +17,17 @@ fn c14_replay(w: &serde_json::Value, tier: &str) -> String {
     c14dec::replay(w, tier)
 }
 
-const CHECKS: &[(&str, &str, RunFn, ReplayFn)] = &[("C14", "exploration", c14_run, c14_replay)];
+fn c15_run(r: &mut Report, tier: &str) {
+    c15gen::run(r, tier);
+}
+fn c15_replay(w: &serde_json::Value, tier: &str) -> String {
+    c15gen::replay(w, tier)
+}
+
+const CHECKS: &[(&str, &str, RunFn, ReplayFn)] = &[
+    ("C14", "exploration", c14_run, c14_replay),
+    ("C15", "model_checking", c15_run, c15_replay),
+];
 
 fn main() {
     let args = parse_args();
@@ -35,6 +46,7 @@ fn main() {
         println!("{}", (c.3)(&v["witness"], &args.tier));
         return;
     }
+    vkit::quiet_stdout();
     let mut r = Report::new(c.0, &args.tier, c.1);
     (c.2)(&mut r, &args.tier);
     std::process::exit(r.finish());
